@@ -68,7 +68,7 @@ pub enum Op {
     /// 1 over-long user property (v5), 2 larger than the peer's Maximum Packet Size (v5, when configured)
     SendBad { kind: SendKind, how: u8 },
     /// start a streamed publish (QoS 0 / 1) with `declared` payload bytes.
-    /// bad: 0 no, 1 over-long topic, 2 packet id of an outstanding request (QoS 1)
+    /// bad: 0 no, 1 over-long topic, 2 packet id of an outstanding request (QoS 1), 3 no failure but the future is not polled yet (QoS 1)
     StreamStart { qos: u8, declared: u8, bad: u8 },
     /// `StreamingPayload::send` on the k-th live stream.  len class: 0 empty, 1 one byte,
     /// 2 half of what is owed, 3 all that is owed, 4 one byte too many, 5 three bytes
@@ -187,6 +187,24 @@ pub struct World {
     /// payload bytes of a partly sent inbound PUBLISH the peer still owes
     pub inbound_owed: usize,
     pub inbound_qos2: u16,
+    /// the header of a streamed QoS 1/2 publish is on the wire, its frame is not complete yet
+    pub partial_pub_out: bool,
+    /// topic of the partly delivered inbound PUBLISH (`Inbound(4)`)
+    pub partial_topic: String,
+}
+
+/// topic of an incomplete PUBLISH frame at the end of the stream, once its header is complete
+pub fn partial_publish_topic(role: Role, tail: &[u8]) -> Option<String> {
+    let crate::spec::wire::Split::Frame { first, rl, hdr, .. } = crate::spec::wire::split(tail) else { return None };
+    if first >> 4 != 3 {
+        return None;
+    }
+    let body = &tail[hdr..];
+    if role.is_v5() {
+        crate::spec::v5::decode_publish_header(first, rl, body).ok().flatten().map(|(p, _, _)| p.topic)
+    } else {
+        crate::spec::v3::decode_publish_header(first, rl, body).ok().flatten().map(|(p, _, _)| p.topic)
+    }
 }
 
 pub fn tag_topic(i: usize) -> String {
@@ -284,6 +302,8 @@ impl World {
             accepted_all: Vec::new(),
             inbound_owed: 0,
             inbound_qos2: 0,
+            partial_pub_out: false,
+            partial_topic: "in/p".into(),
         })
     }
 
@@ -307,6 +327,15 @@ impl World {
             }
         }
         self.seen = pk.len();
+        // a streamed QoS 1 publish whose header is out occupies the window although its frame is not complete yet
+        self.partial_pub_out = match &tail {
+            WireTail::Incomplete(n) => {
+                let wire = self.eut.peer().wire.borrow();
+                let tb = &wire[wire.len() - n..];
+                matches!(crate::spec::wire::split(tb), crate::spec::wire::Split::Frame { first, .. } if first >> 4 == 3 && (first >> 1) & 3 > 0) && partial_publish_topic(self.eut.role(), tb).is_some()
+            }
+            _ => false,
+        };
         let o = self.outstanding_pubs();
         if o > self.max_outstanding_pubs {
             self.max_outstanding_pubs = o;
@@ -316,7 +345,8 @@ impl World {
 
     /// QoS>0 PUBLISH frames on the wire whose final acknowledgement the peer has not sent yet
     pub fn outstanding_pubs(&self) -> usize {
-        self.requests
+        usize::from(self.partial_pub_out) + self
+            .requests
             .iter()
             .filter(|r| r.t == 3)
             .filter(|r| {
@@ -476,6 +506,12 @@ impl World {
                 if let Some(i) = self.live_idx(k) {
                     self.slots[i].fut = None;
                     self.slots[i].dropped = true;
+                    // a cancelled chunk send: the stream can take the next chunk
+                    if let Some((si, _)) = &self.slots[i].chunk_of {
+                        if self.streams[*si].chunk_slot == Some(i) {
+                            self.streams[*si].chunk_slot = None;
+                        }
+                    }
                 }
             }
             Op::Ack { n, batch } => {
@@ -615,6 +651,7 @@ impl World {
                     match (how % 3, v5, self.peer_max) {
                         (1, true, _) if kind != SendKind::Qos2 => spec.user_prop = Some(("k".into(), "v".repeat(66_000))),
                         (2, true, Some(max)) if matches!(kind, SendKind::Qos0 | SendKind::Qos1 | SendKind::Qos2) => spec.payload = vec![2; max as usize],
+                        (2, true, Some(max)) => spec.topic = format!("{}/{}", tag_topic(i), "y".repeat(max as usize)),
                         _ => spec.topic = "x".repeat(70_000),
                     }
                     let fut = self.eut.send(spec);
@@ -646,7 +683,10 @@ impl World {
                         rec.fut_slot = Some(i);
                         self.slots.push(Slot { stream_of: Some(si), own_id: pid, ..Slot::new(SendKind::Qos1, fut, self.step) });
                         self.streams.push(rec);
-                        self.poll_slot(i);
+                        // bad == 3: created now, first polled later (by a Poll op)
+                        if bad != 3 {
+                            self.poll_slot(i);
+                        }
                     } else {
                         self.streams.push(rec);
                     }
@@ -762,7 +802,7 @@ impl World {
             (1, true) => P5::PingReq,
             (2, true) => P5::Subscribe(s5::Sub5 { pid: id, filters: vec![("in/#".into(), s5::SubOpts::default())], ..Default::default() }),
             (3, _) => P5::Publish(Box::new(s5::Publish5 { topic: "in/0".into(), qos: 0, payload_len: 2, ..Default::default() })),
-            (4, _) => P5::Publish(Box::new(s5::Publish5 { topic: "in/p".into(), qos: 1, pid: Some(id), payload_len: 20, ..Default::default() })),
+            (4, _) => P5::Publish(Box::new(s5::Publish5 { topic: self.partial_topic.clone(), qos: 1, pid: Some(id), payload_len: 20, ..Default::default() })),
             (6, _) => {
                 self.inbound_qos2 = id;
                 P5::Publish(Box::new(s5::Publish5 { topic: "in/2".into(), qos: 2, pid: Some(id), payload_len: 2, ..Default::default() }))
